@@ -572,6 +572,8 @@ func runC20(r *Run, rng *Rng, replay string) {
 	c20deepen2(r, rng, thorough)
 	// 10. column ranges, lookup paths on sheets with merged cells
 	c20deepen3(r, rng, thorough)
+	// 11. references inside option structs, remaining cell/range taking functions
+	c20deepen4(r, rng, thorough)
 	for _, s := range r.opsSample(10) {
 		r.Sample(s)
 	}
